@@ -167,10 +167,12 @@ class SimStdout:
         self.fired = []
         self.where = lambda: (0, -1)
         self.writes = 0
+        self.counts_by_op = {}
 
     def write(self, s):
         self.writes += 1
         k = self.where()
+        self.counts_by_op[k] = self.counts_by_op.get(k, 0) + 1
         f = self.table.get(k)
         if f is not None:
             c = self.counts.get(k, 0) + 1
@@ -762,7 +764,7 @@ def _reference_child(sv, keys, bound):
         sys.stdout = old_stdout
 
 
-def execute(sv, workload, bound, policy_spec=None, sched_seed=0, pairs_seed=0):
+def execute(sv, workload, bound, policy_spec=None, sched_seed=0, pairs_seed=0, ref_pack=None):
     """Run one history.  Returns a result dict (pure data)."""
 
     from props import c14
@@ -774,10 +776,13 @@ def execute(sv, workload, bound, policy_spec=None, sched_seed=0, pairs_seed=0):
         # the reference table is computed in a forked child: this process reaches the history without having parsed
         # anything, so first-use effects (lazy initialisation aborted by a fault, raced by a peer) stay reachable
         from sim import runner
-        try:
-            F = runner.isolated(_reference_child, sv, workload['keys'], bound, hang_s=30)
-        except runner.IsolatedTimeout:
-            return {'discarded': 'reference-pass-killed-at-deadline(stuck-in-C-code)'}
+        if ref_pack is not None:
+            F = ref_pack
+        else:
+            try:
+                F = runner.isolated(_reference_child, sv, workload['keys'], bound, hang_s=30)
+            except runner.IsolatedTimeout:
+                return {'discarded': 'reference-pass-killed-at-deadline(stuck-in-C-code)'}
         if isinstance(F, dict):
             return F
         m.F = F
@@ -872,6 +877,8 @@ def execute(sv, workload, bound, policy_spec=None, sched_seed=0, pairs_seed=0):
         'overlap': bool(sim is not None and sim.probes.get('two_ops_overlapped')),
         'sim_probes': dict(sim.probes) if sim is not None else {},
         'stdout_writes': m.stdout.writes,
+        'first_op_steps': (sim.threads[0].op_steps[0] if sim is not None and sim.threads[0].op_steps else None),
+        'stdout_writes_first_op': m.stdout.counts_by_op.get((0, 0), 0),
         'faults_fired': ([list(f) for f in sim.faults_fired] if sim is not None else []),
         'stdout_fired': [list(f) for f in m.stdout.fired],
     }
@@ -893,7 +900,99 @@ def _count_purge_inflight(sim, programs, probes):
                 probes['compile_finished_during_inflight_compile'] += 1
 
 
-def run_seeded(sv, run_seed, mode, bound):
+# ---------------------------------------------------------------------------
+# systematic single-fault sweep: an exception at every step (a failing stdout at every write) of one compile
+# ---------------------------------------------------------------------------
+
+FAULTSWEEP_BATCH = 40
+
+
+def faultsweep_catalogue():
+    cm = {':--a': ':--b > span', ':--b': 'div, section', ':--c': ':--a:not(:--b)'}
+    pats = ['input:checked', ':default', ':read-only', ':nth-child(2n+1 of p:lang(en))', ':lang(en, "de-*")',
+            'div:has(> p:first-child) ~ a[href^="#"]', ':is(:dir(rtl), :not(:root)) > li:nth-last-of-type(2)',
+            ':-soup-contains("a", "b")', 'a:any-link, input:in-range:enabled', 'p.a#b[c=d i]:empty']
+    keys = [{'pattern': p_, 'ns': None, 'custom': None, 'flags': 0} for p_ in pats]
+    keys += [{'pattern': ':--c, :--a', 'ns': None, 'custom': cm, 'flags': 0},
+             {'pattern': 'p:--b', 'ns': None, 'custom': cm, 'flags': 0},
+             {'pattern': 'input:checked', 'ns': None, 'custom': None, 'flags': 1},
+             {'pattern': ':--c', 'ns': {'h': gen.NS_XHTML}, 'custom': cm, 'flags': 1}]
+    return keys
+
+
+def run_faultsweep(sv, index, bound):
+    """Run ``index``: victim = catalogue[index % n]; batch index // n of its steps (stride order), one forked
+    sub-run per step: compile aborted at that step, then the same key, a related key, purge, the same key again."""
+
+    from sim import runner
+    keys = faultsweep_catalogue()
+    n = len(keys)
+    vi, batch = index % n, index // n
+    related = (vi + 1) % n if vi < 10 else (10 if vi != 10 else 11)
+    base = {'mode': 'faultsweep', 'keys': keys, 'stdout_faults': [],
+            'programs': [[{'op': 'compile', 'key': vi}, {'op': 'compile', 'key': vi}, {'op': 'compile', 'key': related},
+                          {'op': 'purge'}, {'op': 'compile', 'key': vi}, {'op': 'clone', 'obj': 0, 'how': 'pickle'}]]}
+    try:
+        F = runner.isolated(_reference_child, sv, keys, bound, hang_s=30)
+    except runner.IsolatedTimeout:
+        return {'discarded': 'reference-pass-killed-at-deadline(stuck-in-C-code)'}
+    if isinstance(F, dict):
+        return F
+    # length of the victim compile, in steps and in stdout writes
+    probe_w = dict(base)
+    probe_w['faults'] = [[0, 0, 10 ** 9, 'MemoryError']]
+    r0 = runner.isolated(execute, sv, probe_w, bound, None, 0, 0, F, hang_s=60)
+    length = max(1, r0.get('first_op_steps') or 1)
+    writes = r0.get('stdout_writes_first_op', 0)
+    stride = max(1, (length + FAULTSWEEP_BATCH - 1) // FAULTSWEEP_BATCH)
+    if batch >= stride + (1 if writes else 0):
+        return {'discarded': 'faultsweep-batch-beyond-end-of-operation'}
+    res = None
+    digests = []
+    fired = 0
+    if writes and batch == 0:
+        points = [('stdout', j) for j in range(1, writes + 1)]
+    else:
+        b = batch - (1 if writes else 0)
+        points = [('exc', st) for st in range(1 + b, length + 1, stride)]
+    for kind, st in points:
+        w = dict(base)
+        if kind == 'exc':
+            w['faults'] = [[0, 0, st, 'MemoryError' if st % 3 else 'KeyboardInterrupt']]
+        else:
+            w['faults'] = []
+            w['stdout_faults'] = [[0, 0, st, 32]]
+        try:
+            r = runner.isolated(execute, sv, w, bound, None, 0, 0, F, hang_s=60)
+        except runner.IsolatedTimeout:
+            continue
+        digests.append(r['digest'])
+        fired += len(r.get('faults_fired') or []) + len(r.get('stdout_fired') or [])
+        if res is None or (r['violation'] and not res['violation']):
+            res = r
+            res['workload'] = w
+        if r['violation']:
+            break
+    if res is None:
+        return {'discarded': 'faultsweep-batch-beyond-end-of-operation'}
+    res = dict(res)
+    if not res['violation']:
+        res['digest'] = fp.h(digests, 12)
+    res['probes'] = dict(res['probes'])
+    res['probes']['faultsweep_points'] = len(digests)
+    res['probes']['faultsweep_faults_fired'] = fired
+    res['bound'] = bound
+    res['pairs_seed'] = 0
+    res['faultsweep'] = {'victim': vi, 'pattern': keys[vi]['pattern'], 'batch': batch, 'victim_steps': length,
+                         'stride': stride, 'stdout_writes': writes}
+    return res
+
+
+def run_seeded(sv, run_seed, mode, bound, index=None):
+    if mode == 'faultsweep':
+        res = run_faultsweep(sv, index or 0, bound)
+        res['run_seed'] = run_seed
+        return res
     rng = random.Random(run_seed)
     workload = gen_workload(rng, mode)
     prng = random.Random(rng.getrandbits(64))
@@ -928,24 +1027,28 @@ def replay(sv, rec):
 
 def plan(tier):
     if tier == 'thorough':
-        scale, budget = 14, 1150
+        scale, budget = 20, 1500
     else:
-        scale, budget = 1, 80
+        scale, budget = 1, 85
     cfgs = []
 
     def add(mode, bound, nruns, chunk):
         cfgs.append({'name': f'{mode}-k{bound}', 'mode': mode, 'bound': bound, 'nruns': nruns * scale, 'chunk': chunk})
 
-    add('seq', 3, 2400, 40)
-    add('seq', 1, 1200, 40)
-    add('seq', 8, 1200, 40)
-    add('seq', 500, 600, 40)
-    add('faults', 2, 1500, 25)
-    add('faults', 5, 1000, 25)
-    add('concurrent', 2, 1500, 25)
-    add('concurrent', 3, 1000, 25)
-    add('concurrent', 500, 500, 25)
-    add('big', 500, 64, 2)
+    add('seq', 3, 1500, 40)
+    add('seq', 1, 700, 40)
+    add('seq', 8, 700, 40)
+    add('seq', 500, 300, 40)
+    add('faults', 2, 800, 25)
+    add('faults', 5, 500, 25)
+    add('concurrent', 2, 800, 25)
+    add('concurrent', 3, 500, 25)
+    add('concurrent', 500, 300, 25)
+    add('big', 500, 32, 2)
+    # systematic single-fault sweep of one compile (exception at every step, failing stdout at every write): the
+    # thorough tier covers every step of the 14 catalogue compiles, the quick tier every ~6th
+    cfgs.append({'name': 'faultsweep-k3', 'mode': 'faultsweep', 'bound': 3, 'chunk': 7,
+                 'nruns': 14 * 6 if tier != 'thorough' else 14 * 62})
     return {'budget_s': budget, 'configs': cfgs, 'minimise_budget': 500}
 
 
@@ -960,6 +1063,7 @@ def make_record(res, cfg=None, index=None):
         'workload': res['workload'],
         'segments': res['segments'],
         'faults': res['workload'].get('faults', []),
+        'faultsweep': res.get('faultsweep'),
         'faults_fired': res.get('faults_fired'),
         'stdout_faults_fired': res.get('stdout_fired'),
         'policy': {k: v for k, v in (res.get('policy') or {}).items() if k != 'segments'},
@@ -991,7 +1095,11 @@ def _one_run(sv, verif_seed, cfg, i, nsamples):
     from sim import runner
     agg = runner.Agg()
     seed = runner.derive_seed(verif_seed, PROP, cfg['name'], i)
-    res = run_seeded(sv, seed, cfg['mode'], cfg['bound'])
+    res = run_seeded(sv, seed, cfg['mode'], cfg['bound'], index=i)
+    if res.get('discarded') == 'faultsweep-batch-beyond-end-of-operation':
+        agg.count('probe:faultsweep_batches_beyond_end')
+        agg.digests[f"{cfg['name']}:{i}"] = 'beyond-end'
+        return agg
     if res.get('discarded'):
         agg.count('discarded:' + res['discarded'])
         agg.digests[f"{cfg['name']}:{i}"] = 'discarded'
